@@ -233,7 +233,8 @@ impl C18 {
     }
     for l in nrows.saturating_sub(1).max(2)..=nrows + 1 { for bits in 0..(1u32 << l) {
       let m: Vec<bool> = (0..l).map(|i| bits >> i & 1 == 1).collect();
-      let ok = l == nrows && m.iter().any(|x| *x);
+      // a full-length mask without a true entry selects exactly zero rows
+      let ok = l == nrows;
       // a mask whose length differs from the row count is not covered by the statement (it speaks of the rows a mask selects): skipped
       let w: Option<Vec<usize>> = if ok { Some(m.iter().enumerate().filter(|(_, b)| **b).map(|(i, _)| i).collect()) } else { continue };
       sel(format!("[{}]", m.iter().map(|x| x.to_string()).collect::<Vec<_>>().join(" ")), w, false, "mask", &mut s, out);
